@@ -14,9 +14,15 @@ Three parts, every run:
    caller's side (logical values + memory layout: C, transposed, strided / reversed / windowed / broadcast axes, swapaxes)
    and converted to the kernel's declared array type the way pybind11's type caster does (the stand-in records the flags
    of every registered signature), so a kernel that receives a non-contiguous view and is not prepared for it is observed
-   as wrong values and/or an out-of-bounds read.  thorough: valgrind on the interpreter driving the deployed .so.  (this file)
-3. descriptors: rectangular_grid, nearest_atom_index, prune, aso, aeif against float64 references with the float32
-   rounding bands excluded.  (vmon/models/c19_descriptors.py)
+   as wrong values and/or an out-of-bounds read.  The same run has a sweep with several hundred to a few thousand points /
+   up to 300 conformers per argument, a sweep with a wrong number of dimensions (the stand-in's unchecked<N>() / shape(i) refuse
+   what pybind11 refuses; a call that returns, or reads past the buffer, is reported), and the recorded array flag words of every
+   registration are judged: for every dtype a Python caller passes some overload of the name must take it (forcecast, or a
+   conversion numpy regards as safe).  thorough: valgrind on the interpreter driving the deployed .so.  (this file)
+3. descriptors: rectangular_grid, nearest_atom_index, prune, atomic_indicator_field, aso, aeif against float64 references with
+   the float32 rounding bands excluded: fresh objects, the same objects again after caller-side edits and on a second grid of the
+   same shape, keyword / positional / all-keyword argument forms, arguments compared with their values before each call, a few
+   grids of 2**15..2**17 points and ensembles of 129..310 atoms, several threads calling at once.  (vmon/models/c19_descriptors.py)
 
 The evidence records which binary (.so path + sha256) and which source hashes each part exercised.
 """
@@ -44,7 +50,14 @@ RULE = ("kernel cases: every exported cdist* name x shapes N,M in {0,1,2,7,64}+s
         "column window, swapaxes-0-1, swapaxes-1-2). descriptor cases: seeded molecules "
         "(1..24 atoms, chain or cloud, offset up to 15 A) and ensembles (1..5 conformers, random weights and charges), "
         "grids from rectangular_grid (padding 0..2.5, spacing 0.45..2, float32/float64) plus hand-placed points; "
-        "non-trivial = grid with >= 8 points having both occupied and unoccupied points; distinct by hash of coordinates and grid parameters")
+        "non-trivial = grid with >= 8 points having both occupied and unoccupied points; distinct by hash of coordinates and grid parameters. "
+        "every descriptor case has three rounds on the same objects: fresh; after 1-2 coordinate edits (coords setter, translate, rotate, scale, "
+        "in-place edit of the coords array) plus weights / charges setters / an element change; on a second grid of the same shape (shifted, "
+        "reversed, jittered copy or the same array shifted by the caller); every call in one of three argument forms (optional arguments by "
+        "keyword / all positional in the documented order / all by keyword). large cases: one grid each of 37026, 68921, 132600 points with "
+        "conformers in opposite corners of the box, one ensemble each of 129-150, 250-262, 290-310 atoms; kernel cases with 257..5000 points in "
+        "one argument or 9..300 conformers. concurrent cases: 4 (thorough also 8) threads, own ensemble each (equal shapes), one grid, "
+        "7 operations, first all threads in the same function, then in different ones")
 ASSUMPTIONS = [
     "kernel oracle: inputs are first cast to the float width of the returned array (the kernels' documented force-cast), "
     "then evaluated in float64 (Python) / long double (C++); tolerance 4 ulp of the output width + the smallest normal number",
@@ -60,6 +73,15 @@ ASSUMPTIONS = [
     "contiguous in numpy's sense, else the caller's buffer and strides are passed through); dtype conversion and overload resolution of "
     "Python arguments are exercised only in part 1, against the deployed binary",
     "a change to distance.cpp is seen by part 2 immediately but by parts 1 and 3 only after the extension is rebuilt",
+    "argument forms: the parameter names, order and defaults of molli/descriptor/gridbased.py at HEAD b8d273d are taken as the documented "
+    "signatures (c19_descriptors.SIGNATURES)",
+    "a descriptor call must leave grid, ensemble coordinates / weights / charges, geometry coordinates and caller-supplied tables bit-identical "
+    "(a drifted grid makes the next descriptor on 'the same grid' answer for other points)",
+    "concurrent descriptor calls are compared with the serial result of the same call (float results within 1e-9, index results exactly); "
+    "the serial results are judged against the definitions",
+    "array flag words: without forcecast pybind11 converts an argument only where numpy's 'safe' casting rule allows it (f2,f4,u1 -> float32; "
+    "f2,f4,f8,i4,i8,u1 -> float64); a name none of whose overloads takes one of these caller dtypes is reported",
+    "the package not importing / misbehaving when the compiled extension is absent is outside this check",
 ]
 EXHAUSTIVE = False
 CHUNK_TIMEOUT = 900
@@ -94,6 +116,22 @@ def REQUIRED(tier):
         "prune.checked": 60 * k, "prune.points.kept": 500, "prune.points.dropped": 500,
         "aso.checked": 60 * k, "descriptor.large-ensembles": 2 * k, "aeif.checked": 60 * k, "aso.points.compared": 5000, "aeif.points.compared": 5000,
         "aso.points.occupied": 500, "aeif.weighted.checked": 20 * k, "aso.weighted.checked": 20 * k,
+        # extensions after the gap review: the same objects again after caller-side edits / on a second grid of the same shape,
+        # documented argument forms, arguments compared after every call, large inputs, concurrent callers
+        "descriptor.repeat.after-ensemble-edit": 40 * k, "descriptor.repeat.second-grid-of-same-shape": 40 * k,
+        "descriptor.calls.positional": 550 * k, "descriptor.calls.all-keyword": 300 * k,
+        "descriptor.calls.positional.aso": 100 * k, "descriptor.calls.positional.aeif": 100 * k, "descriptor.calls.positional.prune": 90 * k,
+        "descriptor.calls.positional.nearest_atom_index": 200 * k, "descriptor.calls.positional.rectangular_grid": 12 * k,
+        "descriptor.calls.positional.atomic_indicator_field": 10 * k, "atomic_indicator_field.checked": 50 * k,
+        "descriptor.arguments-compared-after-call": 2000 * k, "descriptor.concurrent.calls": 140,
+        "descriptor.large-grid.above-32768-points": 1, "descriptor.large-grid.above-65536-points": 1,
+        "aso.large-grid.occupied-points-in-last-sixteenth": 150, "aso.large-grid.occupied-points-in-first-sixteenth": 150,
+        "aeif.large-grid.occupied-points-in-last-sixteenth": 150,
+        "descriptor.many-atoms.above-128-atoms": 1, "nearest.points.naming-an-atom-index-above-127": 10000,
+        "kernel.large-argument-cases": 15 * k,
+        "native.asan-ubsan.large.second-argument-above-256-points": 40 * k, "native.asan-ubsan.large.first-argument-above-256-rows": 40 * k,
+        "native.asan-ubsan.large.more-than-8-conformers": 25 * k, "native.asan-ubsan.large.elements-compared": 3 * 10 ** 6 * k,
+        "native.asan-ubsan.wrong-ndim.raised": 150, "native.asan-ubsan.registrations-with-array-flags-judged": 16,
     }
     for lay in NATIVE_LAYOUTS:       # every memory layout must have reached the kernels (swapaxes: first argument of cdist32* only)
         req[f"native.asan-ubsan.layout.{lay}"] = (1500 if lay.startswith("swapaxes") else 7000) * k
@@ -122,6 +160,13 @@ def plan(tier, seed):
     for i in range(nk):
         specs.append({"kind": "kernel", "chunk": i, "n": per})
     # part 3
+    # the few large inputs and the concurrent callers first: they are the longest descriptor items
+    for i in range(3):
+        specs.append({"kind": "desc-large", "variant": "grid", "chunk": i, "n": 1 if quick else 4})
+        specs.append({"kind": "desc-large", "variant": "atoms", "chunk": i, "n": 1 if quick else 6})
+    specs.append({"kind": "desc-threads", "threads": 4, "reps": 5 if quick else 25})
+    if not quick:
+        specs.append({"kind": "desc-threads", "threads": 8, "reps": 12})
     nd, perd = (16, 5) if quick else (64, 36)
     for i in range(nd):
         specs.append({"kind": "desc", "chunk": i, "n": perd, "ngrid": 6 if quick else 40})
@@ -137,9 +182,9 @@ def run_chunk(spec, ctx):
     if kind in ("kernel", "kndim", "kthreads"):
         from vmon.models import c19_kernels
         return getattr(c19_kernels, "run_" + kind)(spec, ctx)
-    if kind == "desc":
+    if kind in ("desc", "desc-large", "desc-threads"):
         from vmon.models import c19_descriptors
-        return c19_descriptors.run_desc(spec, ctx)
+        return getattr(c19_descriptors, "run_" + kind.replace("-", "_"))(spec, ctx)
     raise ValueError(kind)
 
 
@@ -227,6 +272,30 @@ def flag_names(word) -> str:
     return "|".join(v for k, v in ARRAY_FLAGS.items() if w & k) + (f"|{w & ~19}" if w & ~19 else "") or "0"
 
 
+# dtypes a Python caller passes (part 1 does, against the deployed binary) -> kernel widths numpy converts to under its "safe"
+# rule, i.e. without NPY_ARRAY_FORCECAST.  pybind11's caster for array_t<T, Flags> is PyArray_FromAny(obj, dtype(T), 0, 0,
+# ENSUREARRAY | Flags): without forcecast in Flags a conversion that is not "safe" fails and the overload is skipped; when no
+# overload of the name is left the caller gets "TypeError: incompatible function arguments" instead of distances.
+CALLER_DTYPES = ("f2", "f4", "f8", "i4", "i8", "u1")
+SAFE_CAST_TO = {"f": {"f2", "f4", "u1"}, "d": {"f2", "f4", "f8", "i4", "i8", "u1"}}
+
+
+def judge_array_flags(ctx, case, reg3):
+    """every exported name must have, for every caller dtype, an overload whose two argument types take that dtype"""
+    byname = {}
+    for n, t, fr, fa, fb in reg3:
+        if fr != "":
+            byname.setdefault(n, []).append((t, int(fa), int(fb)))
+            ctx.count("native.asan-ubsan.registrations-with-array-flags-judged")
+    for n, ovs in sorted(byname.items()):
+        refused = [u for u in CALLER_DTYPES
+                   if not any(all((f & 16) or u in SAFE_CAST_TO[t] for f in (fa, fb)) for t, fa, fb in ovs)]
+        if refused:
+            ctx.violation(f"native:argument-dtype-refused-for-lack-of-forcecast:{n}", case=case, refused_input_dtypes=refused,
+                          overloads=[f"{t}: takes {flag_names(fa)}, {flag_names(fb)}" for t, fa, fb in ovs],
+                          effect="TypeError (incompatible function arguments) instead of a converted argument")
+
+
 def report_value_lines(ctx, case, out, val, reg3):
     """violations from the MISMATCH/MMLAYOUT/SHAPE/INPUTCHANGED/NOGIL/RAISED lines of the reference run"""
     flags = {(n, t): f"returns {flag_names(fr)}; takes {flag_names(fa)}, {flag_names(fb)}" for n, t, fr, fa, fb in reg3 if fr != ""}
@@ -251,6 +320,7 @@ def report_value_lines(ctx, case, out, val, reg3):
             ctx.violation(f"native:kernel-wrong-for-noncontiguous-argument:{name}", case=case, **detail)
     for key, pat in (("native:result-shape-wrong", r"^SHAPE (\S+) ([fd]) (.*)$"), ("native:kernel-modifies-input", r"^INPUTCHANGED (\S+) ([fd]) (.*)$"),
                      ("native:array-allocated-while-gil-released", r"^NOGIL (\S+) ([fd])()$"),
+                     ("native:wrong-ndim-accepted", r"^NDIMACCEPTED (\S+) ([fd]) (.*)$"),
                      ("native:kernel-raised-on-valid-arguments", r"^RAISED (\S+) ([fd]) (.*)$")):
         seen = set()
         for m in re.finditer(pat, out, re.M):
@@ -283,7 +353,9 @@ def run_native(spec, ctx):
                             for n, t, fr, fa, fb in reg3 if fr != ""})
         other = sorted(set(re.findall(r"^OTHER (\S+)$", out, re.M)))
         val = {k: int(v) for k, v in re.findall(r"^(CALLS|ELEMS|NMISMATCH|NSHAPE|NINPUTCHANGED|NRAISED|THREADS|THREADMISMATCH|NONCONTIGCALLS|"
-                                                r"NONCONTIGELEMS|CASTCOPY|CASTPASS|PASSNONCONTIG|ALIASCALLS|ALIASSAMESTART|ALIASIDENTICAL|ALIASOVERLAP) (\d+)$", out, re.M)}
+                                                r"NONCONTIGELEMS|CASTCOPY|CASTPASS|PASSNONCONTIG|ALIASCALLS|ALIASSAMESTART|ALIASIDENTICAL|ALIASOVERLAP|"
+                                                r"LARGECALLS|LARGEELEMS|LARGESECOND|LARGEFIRST|LARGECONFORMERS|LARGENONCONTIG|NDIMCALLS|NDIMRAISED|"
+                                                r"NDIMACCEPTED_TOTAL) (\d+)$", out, re.M)}
         layouts = {k: int(v) for k, v in re.findall(r"^LAYOUT (\S+) (\d+)$", out, re.M)}
         ctx.count(f"native.{tag}.registered-kernels", len(reg))
         ctx.note(f"part2_native_{san}", {
@@ -309,6 +381,7 @@ def run_native(spec, ctx):
                 ctx.violation(f"native:overloaded-name-lacks-a-float-width:{n}", case=case, name=n, widths=sorted(ts))
         if san == "asan":        # lines printed before a sanitizer abort count too (stdout of the harness is line-buffered)
             report_value_lines(ctx, case, out, val, reg3)
+            judge_array_flags(ctx, case, reg3)
         rep = classify_sanitizer(err)
         if rep is not None:
             tool, kind, frame = rep
@@ -337,6 +410,12 @@ def run_native(spec, ctx):
             ctx.count("native.asan-ubsan.alias.overlapping-windows", val.get("ALIASOVERLAP", 0))
             for lay, n in layouts.items():
                 ctx.count(f"native.asan-ubsan.layout.{lay}", n)
+            for k, name in (("LARGECALLS", "calls"), ("LARGEELEMS", "elements-compared"), ("LARGESECOND", "second-argument-above-256-points"),
+                            ("LARGEFIRST", "first-argument-above-256-rows"), ("LARGECONFORMERS", "more-than-8-conformers"),
+                            ("LARGENONCONTIG", "noncontiguous-argument-calls")):
+                ctx.count(f"native.asan-ubsan.large.{name}", val.get(k, 0))
+            ctx.count("native.asan-ubsan.wrong-ndim.calls", val.get("NDIMCALLS", 0))
+            ctx.count("native.asan-ubsan.wrong-ndim.raised", val.get("NDIMRAISED", 0))
         else:
             ctx.count("native.tsan.threads", val.get("THREADS", 0))
             if val.get("THREADMISMATCH", 0):
@@ -441,17 +520,19 @@ def post(run, results):
             continue
         for why in res.get("inconclusive", ()):
             m = re.search(r"died rc=-(\d+)", why)
-            if m and int(m.group(1)) in CRASH_SIGNALS and spec["kind"] in ("kernel", "kthreads", "desc"):
+            if m and int(m.group(1)) in CRASH_SIGNALS and spec["kind"] in ("kernel", "kthreads", "desc", "desc-large", "desc-threads"):
                 run.violations.append({
-                    "key": f"C19:{'kernel' if spec['kind'] != 'desc' else 'descriptor'}:interpreter-killed-by-signal:"
+                    "key": f"C19:{'kernel' if not spec['kind'].startswith('desc') else 'descriptor'}:interpreter-killed-by-signal:"
                            f"{CRASH_SIGNALS[int(m.group(1))]}",
                     "spec": spec, "case": None, "detail": {"stderr_tail": why[-1500:]}})
 
 
 LEVEL_TEXT = ("Held on the executions produced: the deployed kernels agree with a float64 evaluation on every generated shape/dtype/"
               "layout and under 8 concurrent callers; the current kernel source runs clean under ASan+UBSan+LSan and TSan while matching "
-              "a long-double reference for every registered name; the grid descriptors agree with float64 definitions outside the "
-              "float32 rounding bands. Not a proof: reach is that of the sweeps and generators.")
+              "a long-double reference for every registered name (also for arguments of several hundred to a few thousand points, with wrong-ndim "
+              "arguments refused); the grid descriptors agree with float64 definitions outside the "
+              "float32 rounding bands, also when the same objects are used again after edits, on a second grid of the same shape, in positional "
+              "form, on grids of 2**15..2**17 points, ensembles of up to 310 atoms and from 4 threads at once, and leave their arguments unmodified. Not a proof: reach is that of the sweeps and generators.")
 LEVEL_NOTE = ("Trusted: numpy float64 arithmetic, the long-double loop and the pybind11 stand-in of the C++ harness (models array_t as shape + strides "
               "over an exact-size buffer and the contiguity part of pybind11's argument conversion; dtype conversion and overload resolution "
               "are exercised only through the deployed binary), clang-14 "
